@@ -2,7 +2,7 @@
 # seedcheck2.sh <seed-id> [props...] : apply /tmp/seed/<id>/_seed/patch.diff inside that worktree and analyse it there (does not touch /repo)
 s="$1"; shift
 props="${*:-$s}"
-[ "$props" = all ] && props="C01 C02 C03 C04 C06 C07 C08 C09 C10 C11 C12 C13 C14 C15 C16 C17 C18"
+[ "$props" = all ] && props="C01 C02 C03 C04 C05 C06 C07 C08 C09 C10 C11 C12 C13 C14 C15 C16 C17 C18"
 cd /tmp/seed/$s && git checkout -q -- . && git apply _seed/patch.diff || { echo "patch does not apply"; exit 2; }
 cd /verif
 for p in $props; do
